@@ -32,6 +32,19 @@ import (
 //   - a timer that is not cancelled eventually elapses, in particular one started
 //     right after a cancel (otherwise: deadlock at the final wait)
 //
+// Bounds: 3 (quick) / 4 (thorough) caller operations, preemption budget 2 / 3.
+//
+// On the unchanged tree two things are found (both confirmed natively):
+//   - panic "BUG: new timer requested before previous timer elapsed or was cancelled":
+//     cancel() only closes a channel, so after [cancel, start] the goroutine's running
+//     select has the cancel case and the start-request case ready together and may
+//     take the request first. The panic ends only the schedules that take it; all
+//     other obligations are still checked on the schedules that serve the cancel first.
+//   - P:cancelled-timer-never-elapses: in the same select the timer case may win
+//     over an already closed cancel channel and close the elapsed channel after
+//     cancel() returned. It is recorded and asserted at the very end of the run so
+//     that it does not mask the other obligations.
+//
 // Natively the goroutine schedule cannot be replayed, so outside the engine the
 // same operation sequence runs in a stress loop (fresh StandardRoundTimer per
 // iteration, rotating real durations, yields sprinkled): a panic of the timer
@@ -105,9 +118,9 @@ type vhC12Run struct {
 
 func vhC12Preempt() int {
 	if verifrt.Thorough() {
-		return 2
+		return 3
 	}
-	return 1
+	return 2
 }
 
 // check states an obligation; a failed one ends the run (under the engine: the path).
@@ -183,6 +196,9 @@ func (r *vhC12Run) duration(ops []int, k int) time.Duration {
 	if vhC12WillWait(ops, k) {
 		return time.Duration(r.iter%8) * time.Microsecond
 	}
+	if r.calm {
+		return time.Duration(r.iter%2) * time.Microsecond
+	}
 	switch r.iter % 3 {
 	case 0:
 		return time.Hour
@@ -197,7 +213,7 @@ func (r *vhC12Run) jitter(ops []int, k int) {
 		return
 	}
 	if r.calm && ops[k] == vhC12Start && r.cur != nil && r.cur.cancelled && !r.cur.waited {
-		time.Sleep(20 * time.Microsecond)
+		time.Sleep(300 * time.Microsecond)
 	}
 	for j := 0; j < (r.iter>>(2*uint(k)))%4; j++ {
 		runtime.Gosched()
@@ -344,7 +360,7 @@ func vhC12Execute(ops []int, firstMethod int) *vhC12Run {
 		return r
 	}
 	// Native stress. Sequences with a start right after a cancel can kill the process
-	// (panic of the timer goroutine): their first 2000 iterations pause before such a
+	// (panic of the timer goroutine): their first 1000 iterations pause before such a
 	// start, so that the other checks get a chance to report first, and the loop goes
 	// on after a late elapse was reported.
 	prone := false
@@ -356,7 +372,7 @@ func vhC12Execute(ops []int, firstMethod int) *vhC12Run {
 	lateReported := false
 	deadline := time.Now().Add(30 * time.Second)
 	for i := 0; i < 200000; i++ {
-		r := &vhC12Run{iter: i, method: firstMethod, h: 1, rd: uint32(i), calm: prone && i < 2000}
+		r := &vhC12Run{iter: i, method: firstMethod, h: 1, rd: uint32(i), calm: prone && i < 1000}
 		r.run(ops)
 		if r.lateElapse && !lateReported && vhC12StrictCancel {
 			lateReported = true
